@@ -17,11 +17,14 @@ RULE = ('descriptor = seeded batch of scenarios; scenario = 1..8 distinct regist
         '{0xFF,0xF0,0x0F,0x03,0}, channel 0..3, added through add_port_callback or add_header_callback), a script of <=3 '
         'mutations executed inside callbacks, optionally one raising callback at every position, and a packet sequence '
         'covering all 256 header bytes. distinct_nontrivial = distinct (registration table, script, header) triples '
-        'where at least one registration matched or a mutation ran.')
+        'where at least one registration matched or a mutation ran.  Shared-callback scenarios: 1..3 callback objects each '
+        'registered under several patterns on 1..2 ports through both APIs, 4..13 add/remove steps between dispatches, every '
+        'header of those ports dispatched after every step.')
 ASSUMPTIONS = ['matching rule: (header port & port mask) == registered port and (header channel & channel mask) == '
                'registered channel']
 REQUIRED = ['mon.packets', 'mon.must_deliveries', 'mon.mutations_executed', 'mon.raising_callbacks',
-            'mon.caller_calls', 'mon.self_removals']
+            'mon.caller_calls', 'mon.self_removals', 'mon.shared_callback_removals',
+            'mon.shared_callback_multi_pattern_deliveries']
 
 
 def cases(tier, seed):
@@ -265,6 +268,84 @@ def run_scenario(ctx, regs, script, raising, headers, label):
         ctx.count('mon.raising_callbacks')
 
 
+def run_shared(ctx, rnd, label):
+    """One callback object registered under several patterns (the way applications register one handler for a whole
+    port and again for one channel of it); registrations come and go between dispatches.  Oracle per packet: the
+    callback is invoked once per currently matching registration of it; a removal takes away that pattern only."""
+    from cflib.crazyflie import _IncomingPacketHandler
+    from cflib.crtp.crtpstack import CRTPPacket
+    from cflib.utils.callbacks import Caller
+    link = _Link([])
+    cf = _Cf(link, Caller)
+    handler = _IncomingPacketHandler(cf)
+    ncb = rnd.randrange(1, 4)
+    calls = []
+    cbs = [(lambda pk, i=i: calls.append(i)) for i in range(ncb)]
+    ports = [rnd.randrange(16) for _ in range(rnd.randrange(1, 3))]
+    table = []     # (cb index, port, pmask, chan, cmask)
+    history = []
+
+    def rand_key():
+        port = rnd.choice(ports)
+        if rnd.random() < 0.35:
+            return (port, 0xFF, 0, 0, 'port')
+        cm = rnd.choice((0xFF, 0x03, 0x01, 0x02, 0x00))
+        pm = rnd.choice((0xFF, 0xFF, 0x0F, 0xF0))
+        chan = rnd.randrange(4) & cm
+        return (port & pm, pm, chan, cm, 'header')
+
+    for step in range(rnd.randrange(4, 14)):
+        if table and rnd.random() < 0.45:
+            ent = rnd.choice(table)
+            i, port, pm, chan, cm = ent
+            if (pm, chan, cm) == (0xFF, 0, 0) and rnd.random() < 0.7:
+                handler.remove_port_callback(port, cbs[i])
+            else:
+                handler.remove_header_callback(cbs[i], port, chan, pm, cm)
+            table.remove(ent)
+            history.append(('remove',) + ent)
+            ctx.count('mon.shared_callback_removals')
+        else:
+            i = rnd.randrange(ncb)
+            port, pm, chan, cm, api = rand_key()
+            ent = (i, port, pm, chan, cm)
+            if ent in table:
+                continue
+            if api == 'port':
+                handler.add_port_callback(port, cbs[i])
+            else:
+                handler.add_header_callback(cbs[i], port, chan, pm, cm)
+            table.append(ent)
+            history.append(('add',) + ent)
+        hs = sorted({(p << 4) | c for p in ports for c in range(4)} | {rnd.randrange(256) for _ in range(3)})
+        for h in hs:
+            pk = CRTPPacket(h, [1])
+            link.packets = [pk]
+            link.i = 0
+            del calls[:]
+            try:
+                handler.run()
+            except _Done:
+                pass
+            ctx.evals()
+            ctx.count('mon.packets')
+            hp, hc = (h >> 4) & 0xF, h & 3
+            want = [0] * ncb
+            for (i, port, pm, chan, cm) in table:
+                if port == (hp & pm) and chan == (hc & cm):
+                    want[i] += 1
+            got = [calls.count(i) for i in range(ncb)]
+            if sum(want) > 1:
+                ctx.count('mon.shared_callback_multi_pattern_deliveries')
+            if sum(want):
+                ctx.nontrivial((label, step, h))
+            if got != want:
+                ctx.violate('dispatch:shared-callback:deliveries-differ-from-matching-registrations' +
+                            (':after-removal-of-another-pattern' if any(x[0] == 'remove' for x in history) else ''),
+                            {'label': label, 'header': h, 'history': history, 'table': table, 'want': want, 'got': got})
+                return
+
+
 def _after_self_removal(rid, start_table, script, got):
     if rid not in start_table:
         return False
@@ -379,6 +460,7 @@ def run(desc, ctx):
         run_scenario(ctx, regs, script, raising, headers, 'seed%d-%d' % (desc['seed'], sc))
         if sc % 4 == 0:
             run_caller(ctx, rnd)
+        run_shared(ctx, rnd, 'shared-seed%d-%d' % (desc['seed'], sc))
         if sc == 0:
             ctx.sample({'registrations': regs, 'script': [(a, n, op, arg) for (a, n, op, arg) in script],
                         'raising': raising, 'headers': headers[:12]})
